@@ -18,14 +18,12 @@ character set taken from the Go source, byte values written out here.
 -/
 namespace MdsVerif.Spec.Posix
 
-abbrev Bytes := List UInt8
-
 /-- space, tab, newline -/
 def isBlank (c : UInt8) : Bool := c = 32 || c = 9 || c = 10
 
 mutual
 /-- between fields -/
-def refGap : Bytes → List Bytes × Bool
+def refGap : List UInt8 → List (List UInt8) × Bool
   | [] => ([], true)
   | c :: rest =>
     if isBlank c then refGap rest
@@ -37,7 +35,7 @@ def refGap : Bytes → List Bytes × Bool
     else if c = 34 then refDouble [] rest
     else refWord [c] rest
 /-- inside an unquoted stretch of a field; `acc` is the field so far, reversed -/
-def refWord (acc : Bytes) : Bytes → List Bytes × Bool
+def refWord (acc : List UInt8) : List UInt8 → List (List UInt8) × Bool
   | [] => ([acc.reverse], true)
   | c :: rest =>
     if isBlank c then
@@ -51,11 +49,11 @@ def refWord (acc : Bytes) : Bytes → List Bytes × Bool
     else if c = 34 then refDouble acc rest
     else refWord (c :: acc) rest
 /-- inside single quotes -/
-def refSingle (acc : Bytes) : Bytes → List Bytes × Bool
+def refSingle (acc : List UInt8) : List UInt8 → List (List UInt8) × Bool
   | [] => ([acc.reverse], false)
   | c :: rest => if c = 39 then refWord acc rest else refSingle (c :: acc) rest
 /-- inside double quotes -/
-def refDouble (acc : Bytes) : Bytes → List Bytes × Bool
+def refDouble (acc : List UInt8) : List UInt8 → List (List UInt8) × Bool
   | [] => ([acc.reverse], false)
   | c :: rest =>
     if c = 34 then refWord acc rest
@@ -70,7 +68,7 @@ def refDouble (acc : Bytes) : Bytes → List Bytes × Bool
 end
 
 /-- the reference tokenizer: fields and "input complete" -/
-def refSplit (s : Bytes) : List Bytes × Bool := refGap s
+def refSplit (s : List UInt8) : List (List UInt8) × Bool := refGap s
 
 /-- POSIX §2.2: `| & ; < > ( ) $ backquote \ " ' space tab newline` must be quoted to represent
     themselves, and `* ? [ # ~ = %` "may need to be quoted under certain circumstances". -/
@@ -81,7 +79,7 @@ def specials : List UInt8 :=
 /-- evaluate one word; the Boolean is "inside single quotes".  Outside quotes only a backslash
     escape or a non-special byte is accepted (double quotes are not: `Quote` never needs them, and
     accepting fewer spellings makes `quote_protects` stronger). -/
-def pw : Bool → Bytes → Option Bytes
+def pw : Bool → List UInt8 → Option (List UInt8)
   | false, [] => some []
   | true, [] => none
   | true, c :: r => if c = 39 then pw false r else (pw true r).map (c :: ·)
@@ -95,6 +93,6 @@ def pw : Bool → Bytes → Option Bytes
     else (pw false r).map (c :: ·)
 
 /-- what a POSIX shell obtains from the word `w`, `none` if some special byte is left unquoted -/
-def posixWord (w : Bytes) : Option Bytes := pw false w
+def posixWord (w : List UInt8) : Option (List UInt8) := pw false w
 
 end MdsVerif.Spec.Posix
